@@ -18,6 +18,8 @@ use core::mem;
 //@map /Option<RefCell<BlockDecodeState>>/ => Option<VxDecodeState>
 //@map /\bString\b/ => VxMsg
 //@map /Self::MAX_REORG_SIZE/ => MAX_REORG_SIZE
+//@map /(?s)for \(listener, _\) in self\.listeners\.values\(\) \{\s*listener\.on_streamed_block_start\(\);\s*\}/ => self.vx_tell_listeners_stream_start();
+//@map /RefCell::new\(BlockDecodeState::new\(hash\)\)/ => vx_new_decode_state(hash)
 //@macro error_invalid_chain => Error::InvalidChain
 //@macro error_orphan_block => Error::OrphanBlock(vx_msg())
 //@macro error_invalid_block => Error::InvalidBlock
@@ -129,6 +131,9 @@ pub open spec fn streamed_block_is(pending: Option<VxDecodeState>, proof: TxoPro
     && (pending.is_some() ==> pending->Some_0.complete() && pending->Some_0.announced_hash() == hash)
 }
 pub uninterp spec fn listeners_told(hash: BlockHash, is_remove: bool) -> bool;
+pub uninterp spec fn listeners_told_stream_start<L: ChainListener>(listeners: VxListeners<L>) -> bool;
+#[verifier::external_body]
+pub fn vx_new_decode_state(hash: BlockHash) -> VxDecodeState { unimplemented!() }
 
 impl<L: ChainListener> ChainTracker<L> {
 
@@ -153,6 +158,30 @@ impl<L: ChainListener> ChainTracker<L> {
         ensures r.is_ok() ==> proof_and_majority_ok(self.listeners, self.trusted_oracle_pubkeys, self.network, *proof, height, *header,
             (match external { Some(h) => Some(*h), None => None }), *prev_filter_header, is_remove),
     { unimplemented!() }
+
+    // `for (listener, _) in self.listeners.values() { listener.on_streamed_block_start(); }`: every registered monitor is told
+    // (call marker; what a monitor does with it is verified in unit monitor_done: it drops its partial decode state)
+    #[verifier::external_body]
+    fn vx_tell_listeners_stream_start(&self) ensures listeners_told_stream_start(self.listeners) { unimplemented!() }
+    // the decoding of one chunk (push decoder of an external crate; events go to the listeners through on_push): consumes
+    // the chunk, leaves tip / height / headers / listeners map alone and the stream pending
+    #[verifier::external_body]
+    fn vx_decode_next(&mut self, hash: BlockHash, offset: u32, chunk: &[u8])
+        ensures tracker_same(*final(self), *old(self)), final(self).allow_deep_reorgs == old(self).allow_deep_reorgs,
+            old(self).decode_state.is_some(), final(self).decode_state.is_some(),
+    { unimplemented!() }
+
+//@fn vls-core/src/chain/tracker.rs :: impl<L: ChainListener> ChainTracker<L> :: block_chunk props=C13,C14
+    ensures
+        tracker_same(*final(self), *old(self)),
+        // the first chunk of a streamed block starts from a clean slate: no stream was pending in the tracker (the code asserts
+        // it; add_block / remove_block leave none, see [C13.*.no-stream-left-pending]) and EVERY registered monitor is told, so
+        // that a monitor still holding the partial state of a streamed block the tracker refused drops it instead of aborting
+        // on the next block start ("saw more than one on_block_start")
+        offset == 0 ==> old(self).decode_state.is_none() && listeners_told_stream_start(old(self).listeners),   //[C13.chunk.first-chunk-resets-the-monitors] [C14.chunk.first-chunk-resets-the-monitors]
+        final(self).decode_state.is_some(),
+//@sub /(?s)if let Some\(decode_state_cell\) = self\.decode_state\.as_ref\(\) \{.*\} else \{\s*vx_abort\(\);?\s*\}/ => if self.decode_state.is_some() { self.vx_decode_next(hash, offset, chunk); } else { vx_abort(); }
+//@end
 
 //@fn vls-core/src/chain/tracker.rs :: impl<L: ChainListener> ChainTracker<L> :: maybe_finish_decoding_block props=C13
     ensures
